@@ -1,7 +1,9 @@
 (* OracleFactsCopy2.v — the model satisfies the second COPY scan [oracle_C13_strict]:
    (A) the first result a handler sees in the turn of a message other than CopyDone/Flush/Sync is
        never end-of-stream; (B) after a CopyInResponse, until the server writes again, the turn of a
-       message exceeding the size limit is never silent.  For every configuration and frame list. *)
+       message exceeding the size limit is never silent; (C) between the start of a statement function
+       and any result it sees no message other than Flush/Sync passed silently.
+       For every configuration and frame list. *)
 Require Import Wire.Bytes Spec.BackendSpec Spec.BackendSpecFacts Wire.Errors Wire.Framing Wire.Session
   Wire.SessionFacts Wire.CommandFacts Wire.RobustFacts Wire.Case Spec.KindFacts Spec.Oracles Spec.OracleFacts
   Spec.OracleFactsLife Spec.OracleFactsCopy.
@@ -18,6 +20,9 @@ Definition doomed (m : cmon2) : bool := n_live m && n_copy m && n_silent m && is
 Definition good (m : cmon2) : Prop := n_ok m = true /\ doomed m = false.
 Definition relaxed (m : cmon2) : Prop := n_live m = false \/ n_op m = true \/ eof_exempt (n_cur m) = true.
 Definition naligned (m : cmon2) (fs : list frame) : Prop := n_rem m = fs \/ fs = [].
+(* the current turn is not a silent one (or is the turn of a Flush / Sync, which may be) *)
+Definition spoke (m : cmon2) : Prop := n_live m = false \/ n_silent m = false \/ hs_frame (n_cur m) = true.
+Definition is_exec (e : ev) : bool := match e with CbExec _ _ => true | _ => false end.
 
 (* ---------- event lists without Consume markers and handler results ---------- *)
 Definition no_cc (e : ev) : bool := match e with Consume | CbOp _ => false | _ => true end.
@@ -29,21 +34,23 @@ Lemma plain_run : forall evs m, forallb no_cc evs = true -> n_ok m = true ->
   n_ok (nrun m evs) = true /\ n_rem (nrun m evs) = n_rem m /\ n_cur (nrun m evs) = n_cur m /\
   n_live (nrun m evs) = n_live m /\ n_op (nrun m evs) = n_op m /\
   n_copy (nrun m evs) = last_copyin evs (n_copy m) /\
-  n_silent (nrun m evs) = n_silent m && negb (existsb is_out evs).
+  n_silent (nrun m evs) = n_silent m && negb (existsb is_out evs) /\
+  n_gap (nrun m evs) = n_gap m && negb (existsb is_exec evs).
 Proof.
   induction evs as [|e r IH]; intros m P A.
-  - cbn. rewrite andb_true_r. auto 10.
+  - cbn. rewrite !andb_true_r. auto 10.
   - cbn [forallb] in P. apply andb_prop in P as [P1 P2].
     cbn [nrun fold_left]. fold (nrun (mon2_step m e) r).
     assert (S : n_ok (mon2_step m e) = true /\ n_rem (mon2_step m e) = n_rem m /\ n_cur (mon2_step m e) = n_cur m /\
                 n_live (mon2_step m e) = n_live m /\ n_op (mon2_step m e) = n_op m /\
                 n_copy (mon2_step m e) = (match e with Out (BCopyIn _ _) => true | Out _ => false | _ => n_copy m end) /\
-                n_silent (mon2_step m e) = n_silent m && negb (is_out e)).
-    { unfold mon2_step. rewrite A. cbn [negb]. destruct e; try discriminate; cbn; rewrite ?andb_true_r, ?andb_false_r; auto 10. }
-    destruct S as (S1 & S2 & S3 & S4 & S5 & S6 & S7).
-    destruct (IH (mon2_step m e) P2 S1) as (I1 & I2 & I3 & I4 & I5 & I6 & I7).
-    rewrite I2, I3, I4, I5, I6, I7, S2, S3, S4, S5, S6, S7. cbn [existsb last_copyin fold_left].
-    rewrite negb_orb, andb_assoc. auto 10.
+                n_silent (mon2_step m e) = n_silent m && negb (is_out e) /\
+                n_gap (mon2_step m e) = n_gap m && negb (is_exec e)).
+    { unfold mon2_step. rewrite A. cbn [negb]. destruct e; try discriminate; cbn; rewrite ?andb_true_r, ?andb_false_r; auto 12. }
+    destruct S as (S1 & S2 & S3 & S4 & S5 & S6 & S7 & S8).
+    destruct (IH (mon2_step m e) P2 S1) as (I1 & I2 & I3 & I4 & I5 & I6 & I7 & I8).
+    rewrite I2, I3, I4, I5, I6, I7, I8, S2, S3, S4, S5, S6, S7, S8. cbn [existsb last_copyin fold_left].
+    rewrite !negb_orb, !andb_assoc. auto 12.
 Qed.
 
 Lemma last_copyin_silent : forall evs d, existsb is_out evs = false -> last_copyin evs d = d.
@@ -53,70 +60,88 @@ Proof.
 Qed.
 
 Lemma plain_good evs m : forallb no_cc evs = true -> good m ->
-  good (nrun m evs) /\ n_rem (nrun m evs) = n_rem m /\ (relaxed m -> relaxed (nrun m evs)).
+  good (nrun m evs) /\ n_rem (nrun m evs) = n_rem m /\ (relaxed m -> relaxed (nrun m evs)) /\
+  (spoke m -> spoke (nrun m evs)) /\ (n_gap m = false -> n_gap (nrun m evs) = false).
 Proof.
-  intros P (A & D). destruct (plain_run evs m P A) as (I1 & I2 & I3 & I4 & I5 & I6 & I7).
-  split; [split; [exact I1|]|split; [exact I2|]].
+  intros P (A & D). destruct (plain_run evs m P A) as (I1 & I2 & I3 & I4 & I5 & I6 & I7 & I8).
+  split; [split; [exact I1|]|split; [exact I2|split; [|split]]].
   - unfold doomed in *. rewrite I3, I4, I6, I7. destruct (existsb is_out evs) eqn:O.
     + cbn. rewrite !andb_false_r. reflexivity.
     + rewrite (last_copyin_silent evs _ O). cbn. rewrite andb_true_r. exact D.
   - unfold relaxed. rewrite I3, I4, I5. auto.
+  - unfold spoke. rewrite I3, I4, I7. intros [H|[H|H]]; [left; exact H|right; left; rewrite H; reflexivity|right; right; exact H].
+  - intros G. rewrite I8, G. reflexivity.
 Qed.
 
-Lemma op_step0 m r : n_ok m = true -> (relaxed m \/ r <> OEof) ->
-  good (mon2_step m (CbOp r)) /\ n_rem (mon2_step m (CbOp r)) = n_rem m /\ relaxed (mon2_step m (CbOp r)).
+(* the handler-level invariant: not failed, not doomed, no silent message passed since the statement function
+   started, and the current turn is not a silent one *)
+Definition hgood (m : cmon2) : Prop := good m /\ n_gap m = false.
+
+Lemma op_step0 m r : n_ok m = true -> n_gap m = false -> (relaxed m \/ r <> OEof) ->
+  hgood (mon2_step m (CbOp r)) /\ n_rem (mon2_step m (CbOp r)) = n_rem m /\ relaxed (mon2_step m (CbOp r)) /\
+  spoke (mon2_step m (CbOp r)).
 Proof.
-  intros A H. unfold mon2_step. rewrite A. cbn [negb].
+  intros A Gp H. unfold mon2_step. rewrite A, Gp. cbn [negb]. rewrite orb_false_r.
   assert (B : n_live m && negb (n_op m) && negb (eof_exempt (n_cur m)) && (match r with OEof => true | _ => false end) = false).
   { destruct H as [[H|[H|H]]|H]; rewrite ?H.
     - reflexivity.
     - destruct (n_live m); reflexivity.
     - destruct (n_live m), (n_op m); reflexivity.
     - destruct r; rewrite ?andb_false_r; try reflexivity. congruence. }
-  rewrite B. split; [split; [reflexivity|]|split; [reflexivity|right; left; reflexivity]].
+  rewrite B. split; [split; [split; [reflexivity|]|reflexivity]|split; [reflexivity|split; [right; left; reflexivity|right; left; reflexivity]]].
   unfold doomed. cbn. rewrite !andb_false_r. reflexivity.
 Qed.
 
-Lemma op_step m r : good m -> (relaxed m \/ r <> OEof) ->
-  good (mon2_step m (CbOp r)) /\ n_rem (mon2_step m (CbOp r)) = n_rem m /\ relaxed (mon2_step m (CbOp r)).
-Proof. intros (A & _). apply op_step0. exact A. Qed.
+Lemma op_step m r : hgood m -> (relaxed m \/ r <> OEof) ->
+  hgood (mon2_step m (CbOp r)) /\ n_rem (mon2_step m (CbOp r)) = n_rem m /\ relaxed (mon2_step m (CbOp r)) /\
+  spoke (mon2_step m (CbOp r)).
+Proof. intros ((A & _) & G). apply op_step0; assumption. Qed.
 
 (* the state right after the Consume marker of frame [f] *)
 Lemma consume_step m f rest : good m -> n_rem m = f :: rest ->
   let m1 := mon2_step m Consume in
   n_ok m1 = true /\ n_rem m1 = rest /\ n_cur m1 = Some f /\ n_live m1 = true /\ n_op m1 = false /\
-  n_copy m1 = n_copy m /\ n_silent m1 = true.
+  n_copy m1 = n_copy m /\ n_silent m1 = true /\
+  n_gap m1 = n_gap m || (n_live m && n_silent m && negb (hs_frame (n_cur m))).
 Proof.
-  intros (A & D) R. unfold mon2_step. rewrite A, R. cbn [negb]. fold (doomed m). rewrite D. cbn. auto 10.
+  intros (A & D) R. unfold mon2_step. rewrite A, R. cbn [negb]. fold (doomed m). rewrite D. cbn. auto 12.
+Qed.
+
+Lemma spoke_no_gap m : spoke m -> n_live m && n_silent m && negb (hs_frame (n_cur m)) = false.
+Proof.
+  intros [H|[H|H]]; rewrite H; [reflexivity|apply andb_false_intro1, andb_false_r|apply andb_false_r].
 Qed.
 
 (* ---------- CopyReader.Read ---------- *)
 Lemma copy_read_mon2 L : forall fs tl evs r rest m,
-  copy_read L fs tl = (evs, r, rest) -> good m -> relaxed m -> naligned m fs ->
-  good (mon2_step (nrun m evs) (CbOp r)) /\ relaxed (mon2_step (nrun m evs) (CbOp r)) /\
-  naligned (mon2_step (nrun m evs) (CbOp r)) rest.
+  copy_read L fs tl = (evs, r, rest) -> hgood m -> relaxed m -> spoke m -> naligned m fs ->
+  hgood (mon2_step (nrun m evs) (CbOp r)) /\ relaxed (mon2_step (nrun m evs) (CbOp r)) /\
+  spoke (mon2_step (nrun m evs) (CbOp r)) /\ naligned (mon2_step (nrun m evs) (CbOp r)) rest.
 Proof.
-  induction fs as [|f fr IH]; intros tl evs r rest m H G Rx Al; cbn [copy_read] in H.
-  - injection H as <- <- <-. cbn [nrun fold_left]. destruct (op_step m (rderr_res tl) G (or_introl Rx)) as (X & Y & Z).
-    split; [exact X|split; [exact Z|right; reflexivity]].
+  induction fs as [|f fr IH]; intros tl evs r rest m H G Rx Sp Al; cbn [copy_read] in H.
+  - injection H as <- <- <-. cbn [nrun fold_left]. destruct (op_step m (rderr_res tl) G (or_introl Rx)) as (X & Y & Z & W).
+    split; [exact X|split; [exact Z|split; [exact W|right; reflexivity]]].
   - assert (Rm : n_rem m = f :: fr) by (destruct Al as [Al|Al]; [exact Al|discriminate]).
-    destruct (consume_step m f fr G Rm) as (A1 & R1 & C1 & L1 & O1 & Cp1 & S1).
+    destruct G as (G & Gp).
+    destruct (consume_step m f fr G Rm) as (A1 & R1 & C1 & L1 & O1 & Cp1 & S1 & Gp1).
+    rewrite Gp, (spoke_no_gap m Sp) in Gp1. cbn [orb] in Gp1.
     set (m1 := mon2_step m Consume) in *.
     assert (Simple : forall r0 rest0, (r0 <> OEof \/ eof_exempt (Some f) = true) -> (rest0 = fr \/ rest0 = []) ->
-              good (mon2_step (nrun m [Consume]) (CbOp r0)) /\ relaxed (mon2_step (nrun m [Consume]) (CbOp r0)) /\
-              naligned (mon2_step (nrun m [Consume]) (CbOp r0)) rest0).
+              hgood (mon2_step (nrun m [Consume]) (CbOp r0)) /\ relaxed (mon2_step (nrun m [Consume]) (CbOp r0)) /\
+              spoke (mon2_step (nrun m [Consume]) (CbOp r0)) /\ naligned (mon2_step (nrun m [Consume]) (CbOp r0)) rest0).
     { intros r0 rest0 Hr Hrest. cbn [nrun fold_left]. fold m1.
       assert (Hr' : relaxed m1 \/ r0 <> OEof).
       { destruct Hr as [Hr|Hr]; [right; exact Hr|left; right; right; rewrite C1; exact Hr]. }
-      destruct (op_step0 m1 r0 A1 Hr') as (X & Y & Z). split; [exact X|split; [exact Z|]].
+      destruct (op_step0 m1 r0 A1 Gp1 Hr') as (X & Y & Z & W). split; [exact X|split; [exact Z|split; [exact W|]]].
       destruct Hrest as [->| ->]; [left; rewrite Y; exact R1|right; reflexivity]. }
     destruct f as [t body|t size [x|]|t size|].
     + destruct (Byte.eqb t x48 || Byte.eqb t x53) eqn:Ths.
       * destruct (copy_read L fr tl) as [[evs0 r0] rest0] eqn:E. injection H as <- <- <-.
         change (Consume :: evs0) with ([Consume] ++ evs0). rewrite nrun_app. change (nrun m [Consume]) with m1.
         apply (IH _ _ _ _ m1 E).
-        -- split; [exact A1|]. unfold doomed. rewrite C1. cbn. rewrite !andb_false_r. reflexivity.
+        -- split; [split; [exact A1|]|exact Gp1]. unfold doomed. rewrite C1. cbn. rewrite !andb_false_r. reflexivity.
         -- right; right. rewrite C1. cbn [eof_exempt]. rewrite <- orb_assoc, Ths. apply orb_true_r.
+        -- right; right. rewrite C1. cbn [hs_frame]. exact Ths.
         -- left; exact R1.
       * destruct (Byte.eqb t x64) eqn:T64; [injection H as <- <- <-; apply Simple; [left; discriminate|left; reflexivity]|].
         destruct (Byte.eqb t x63) eqn:T63.
@@ -132,19 +157,20 @@ Qed.
 
 (* ---------- the handler programs ---------- *)
 Lemma run_op_mon2 c cols fmts o w fs tl evs w' fs' st m :
-  run_op c cols fmts o w fs tl = (evs, w', fs', st) -> good m -> (w_copy w = true -> relaxed m) -> naligned m fs ->
-  good (nrun m evs) /\ naligned (nrun m evs) fs' /\ (st <> StPanic -> relaxed (nrun m evs)).
+  run_op c cols fmts o w fs tl = (evs, w', fs', st) -> hgood m -> (w_copy w = true -> relaxed m /\ spoke m) -> naligned m fs ->
+  hgood (nrun m evs) /\ naligned (nrun m evs) fs' /\ (st <> StPanic -> relaxed (nrun m evs) /\ spoke (nrun m evs)).
 Proof.
   intros H G Rx Al.
-  assert (Op : forall r, r <> OEof -> good (nrun m [CbOp r]) /\ naligned (nrun m [CbOp r]) fs /\ (st <> StPanic -> relaxed (nrun m [CbOp r]))).
-  { intros r Hr. cbn [nrun fold_left]. destruct (op_step m r G (or_intror Hr)) as (X & Y & Z). split; [exact X|split; [|intros _; exact Z]].
+  assert (Op : forall r, r <> OEof -> hgood (nrun m [CbOp r]) /\ naligned (nrun m [CbOp r]) fs /\ (st <> StPanic -> relaxed (nrun m [CbOp r]) /\ spoke (nrun m [CbOp r]))).
+  { intros r Hr. cbn [nrun fold_left]. destruct (op_step m r G (or_intror Hr)) as (X & Y & Z & W). split; [exact X|split; [|intros _; split; assumption]].
     destruct Al as [Al|Al]; [left; rewrite Y; exact Al|right; exact Al]. }
-  assert (OutOp : forall b r, r <> OEof -> good (nrun m [Out b; CbOp r]) /\ naligned (nrun m [Out b; CbOp r]) fs /\ (st <> StPanic -> relaxed (nrun m [Out b; CbOp r]))).
+  assert (OutOp : forall b r, r <> OEof -> hgood (nrun m [Out b; CbOp r]) /\ naligned (nrun m [Out b; CbOp r]) fs /\ (st <> StPanic -> relaxed (nrun m [Out b; CbOp r]) /\ spoke (nrun m [Out b; CbOp r]))).
   { intros b r Hr. change [Out b; CbOp r] with ([Out b] ++ [CbOp r]). rewrite nrun_app.
-    destruct (plain_good [Out b] m eq_refl G) as (X & Y & _).
+    destruct G as (G & Gp).
+    destruct (plain_good [Out b] m eq_refl G) as (X & Y & _ & _ & Gp').
     change (nrun (nrun m [Out b]) [CbOp r]) with (mon2_step (nrun m [Out b]) (CbOp r)).
-    destruct (op_step _ r X (or_intror Hr)) as (X2 & Y2 & Z2).
-    split; [exact X2|split; [|intros _; exact Z2]].
+    destruct (op_step _ r (conj X (Gp' Gp)) (or_intror Hr)) as (X2 & Y2 & Z2 & W2).
+    split; [exact X2|split; [|intros _; split; assumption]].
     destruct Al as [Al|Al]; [left; rewrite Y2, Y; exact Al|right; exact Al]. }
   destruct o as [vs| | |tag|f|]; cbn [run_op] in H.
   - destruct (w_closed w); [injection H as <- <- <- <-; apply Op; discriminate|].
@@ -158,13 +184,14 @@ Proof.
   - destruct (w_closed w); [|destruct cols]; injection H as <- <- <- <-; [apply Op|apply Op|apply OutOp]; discriminate.
   - destruct (w_copy w) eqn:Wc; cbn [negb] in H; [|injection H as <- <- <- <-; apply Op; discriminate].
     destruct (copy_read (cfg_limit c) fs tl) as [[evs0 r] rest] eqn:E.
-    destruct (copy_read_mon2 _ _ _ _ _ _ m E G (Rx eq_refl) Al) as (X & Y & Z).
-    destruct r; injection H as <- <- <- <-; rewrite nrun_app; (split; [exact X|split; [exact Z|intros _; exact Y]]).
+    destruct (Rx eq_refl) as [Rx1 Rx2].
+    destruct (copy_read_mon2 _ _ _ _ _ _ m E G Rx1 Rx2 Al) as (X & Y & W & Z).
+    destruct r; injection H as <- <- <- <-; rewrite nrun_app; (split; [exact X|split; [exact Z|intros _; split; assumption]]).
 Qed.
 
 Lemma run_ops_mon2 c cols fmts stop : forall ops w fs tl evs w' fs' res m,
-  run_ops c cols fmts stop ops w fs tl = (evs, w', fs', res) -> good m -> (w_copy w = true -> relaxed m) -> naligned m fs ->
-  good (nrun m evs) /\ naligned (nrun m evs) fs'.
+  run_ops c cols fmts stop ops w fs tl = (evs, w', fs', res) -> hgood m -> (w_copy w = true -> relaxed m /\ spoke m) -> naligned m fs ->
+  hgood (nrun m evs) /\ naligned (nrun m evs) fs'.
 Proof.
   induction ops as [|o r IH]; intros w fs tl evs w' fs' res m H G Rx Al; cbn [run_ops] in H.
   - injection H as <- <- <- <-. split; assumption.
@@ -180,6 +207,7 @@ Proof.
     + injection H as <- <- <- <-. split; assumption.
 Qed.
 
+(* the statement function: its CbExec event opens a fresh observation window *)
 Lemma run_stmt_mon2 c s fmts params fs tl evs fs' res m :
   run_stmt c s fmts params fs tl = (evs, fs', res) -> good m -> naligned m fs ->
   good (nrun m evs) /\ naligned (nrun m evs) fs'.
@@ -188,7 +216,12 @@ Proof.
   destruct (run_ops c (s_cols s) fmts (s_stop s) (s_prog s) w_init fs tl) as [[[evs0 w] fs0] r0] eqn:E.
   injection H as <- <- <-. change (CbExec (s_id s) params :: evs0) with ([CbExec (s_id s) params] ++ evs0). rewrite nrun_app.
   destruct (plain_good [CbExec (s_id s) params] m eq_refl G) as (X & Y & _).
-  eapply run_ops_mon2; eauto; [discriminate|]. destruct Al as [Al|Al]; [left; rewrite Y; exact Al|right; exact Al].
+  destruct G as (A & _). destruct (plain_run [CbExec (s_id s) params] m eq_refl A) as (_ & _ & _ & _ & _ & _ & _ & I8).
+  cbn [existsb is_exec negb orb] in I8. rewrite andb_false_r in I8.
+  destruct (run_ops_mon2 _ _ _ _ _ _ _ _ _ _ _ _ (nrun m [CbExec (s_id s) params]) E (conj X I8)) as ((X2 & _) & Y2).
+  - discriminate.
+  - destruct Al as [Al|Al]; [left; rewrite Y; exact Al|right; exact Al].
+  - split; assumption.
 Qed.
 
 Lemma plain_keep evs m fs : forallb no_cc evs = true -> good m -> naligned m fs ->
@@ -243,7 +276,7 @@ Lemma cmd_mon2 c st f rest tl evs st' fs' k m :
   n_ok (nrun (mon2_step m Consume) evs) = true /\ (k = Continue -> between (nrun (mon2_step m Consume) evs) st' fs').
 Proof.
   intros H (G & _ & Dc) Rm.
-  destruct (consume_step m f rest G Rm) as (A1 & R1 & C1 & L1 & O1 & Cp1 & S1).
+  destruct (consume_step m f rest G Rm) as (A1 & R1 & C1 & L1 & O1 & Cp1 & S1 & _).
   set (m1 := mon2_step m Consume) in *.
   assert (Al1 : naligned m1 rest) by (left; exact R1).
   (* a silent command on a message that is not oversized, or with no CopyInResponse pending *)
@@ -251,7 +284,7 @@ Proof.
             (fs0 = rest \/ fs0 = []) -> n_copy m && is_over (Some f) = false ->
             n_ok (nrun m1 evs0) = true /\ (k = Continue -> between (nrun m1 evs0) st fs0)).
   { intros evs0 fs0 P O Hf Hc.
-    destruct (plain_run evs0 m1 P A1) as (I1 & I2 & I3 & I4 & I5 & I6 & I7).
+    destruct (plain_run evs0 m1 P A1) as (I1 & I2 & I3 & I4 & I5 & I6 & I7 & _).
     split; [exact I1|]. intros _. split; [split; [exact I1|]|split].
     - unfold doomed. rewrite I3, I4, I6, I7, (last_copyin_silent evs0 _ O), C1, L1, Cp1, S1, O. cbn. rewrite andb_true_r. exact Hc.
     - destruct Hf as [->| ->]; [left; rewrite I2; exact R1|right; reflexivity].
@@ -263,7 +296,7 @@ Proof.
             last_copyin evs0 true = false -> last_copyin evs0 false = false -> (fs0 = rest \/ fs0 = []) ->
             n_ok (nrun m1 evs0) = true /\ (k = Continue -> between (nrun m1 evs0) st0 fs0)).
   { intros evs0 st0 fs0 P O La Lb Hf.
-    destruct (plain_run evs0 m1 P A1) as (I1 & I2 & I3 & I4 & I5 & I6 & I7).
+    destruct (plain_run evs0 m1 P A1) as (I1 & I2 & I3 & I4 & I5 & I6 & I7 & _).
     split; [exact I1|]. intros _. split; [split; [exact I1|]|split].
     - unfold doomed. rewrite I7, O. cbn. rewrite !andb_false_r. reflexivity.
     - destruct Hf as [->| ->]; [left; rewrite I2; exact R1|right; reflexivity].
@@ -389,17 +422,17 @@ Proof.
 Qed.
 
 Definition mon2_init (fs : list frame) : cmon2 :=
-  {| n_rem := fs; n_cur := None; n_live := false; n_op := false; n_copy := false; n_silent := true; n_ok := true |}.
+  {| n_rem := fs; n_cur := None; n_live := false; n_op := false; n_copy := false; n_silent := true; n_gap := false; n_ok := true |}.
 
 (* before the first Consume marker the scan is not live: nothing is judged *)
-Lemma mon2_idle : forall pre m, no_consume pre = true -> n_ok m = true -> n_live m = false ->
-  n_ok (nrun m pre) = true /\ n_live (nrun m pre) = false /\ n_rem (nrun m pre) = n_rem m.
+Lemma mon2_idle : forall pre m, no_consume pre = true -> n_ok m = true -> n_live m = false -> n_gap m = false ->
+  n_ok (nrun m pre) = true /\ n_live (nrun m pre) = false /\ n_rem (nrun m pre) = n_rem m /\ n_gap (nrun m pre) = false.
 Proof.
-  induction pre as [|e r IH]; intros m H A Lv; [auto|]. cbn [no_consume forallb] in H. apply andb_prop in H as [H1 H2].
+  induction pre as [|e r IH]; intros m H A Lv Gp; [auto|]. cbn [no_consume forallb] in H. apply andb_prop in H as [H1 H2].
   cbn [nrun fold_left]. fold (nrun (mon2_step m e) r).
-  assert (S : n_ok (mon2_step m e) = true /\ n_live (mon2_step m e) = false /\ n_rem (mon2_step m e) = n_rem m).
-  { unfold mon2_step. rewrite A. cbn [negb]. destruct e; try discriminate; cbn; rewrite ?Lv; cbn; auto. }
-  destruct S as (S1 & S2 & S3). destruct (IH _ H2 S1 S2) as (I1 & I2 & I3). rewrite I3, S3. auto.
+  assert (S : n_ok (mon2_step m e) = true /\ n_live (mon2_step m e) = false /\ n_rem (mon2_step m e) = n_rem m /\ n_gap (mon2_step m e) = false).
+  { unfold mon2_step. rewrite A. cbn [negb]. destruct e; try discriminate; cbn; rewrite ?Lv, ?Gp; cbn; auto. }
+  destruct S as (S1 & S2 & S3 & S4). destruct (IH _ H2 S1 S2 S4) as (I1 & I2 & I3 & I4). rewrite I3, S3. auto.
 Qed.
 
 Lemma session_mon2 c after s fs :
@@ -409,7 +442,7 @@ Lemma session_mon2 c after s fs :
 Proof.
   intros Hfs. unfold session.
   assert (Short : forall pre, no_consume pre = true -> n_ok (nrun (mon2_init fs) (pre ++ [Closed])) = true).
-  { intros pre P. rewrite nrun_app. destruct (mon2_idle pre (mon2_init fs) P eq_refl eq_refl) as (X & _).
+  { intros pre P. rewrite nrun_app. destruct (mon2_idle pre (mon2_init fs) P eq_refl eq_refl eq_refl) as (X & _).
     cbn [nrun fold_left]. unfold mon2_step. rewrite X. exact X. }
   destruct (read_params (S (List.length after)) after) as [cparams|] eqn:Er; [|apply (Short []); reflexivity].
   destruct (auth_phase c cparams s) as [[aevs s'] ok] eqn:Ea.
@@ -423,8 +456,8 @@ Proof.
   destruct mok; cbn [negb].
   - destruct (frames (cfg_limit c) s') as [fs0 tl] eqn:Ef. cbn [fst] in Hfs. subst fs0.
     rewrite !app_assoc. rewrite nrun_app.
-    destruct (mon2_idle (((aevs ++ pevs) ++ mevs) ++ [Out ready]) (mon2_init fs)) as (X & Y & Z);
-      [rewrite !no_consume_app, Pa, Pp, Pm; reflexivity|reflexivity|reflexivity|].
+    destruct (mon2_idle (((aevs ++ pevs) ++ mevs) ++ [Out ready]) (mon2_init fs)) as (X & Y & Z & _);
+      [rewrite !no_consume_app, Pa, Pp, Pm; reflexivity|reflexivity|reflexivity|reflexivity|].
     apply loop_mon2. split; [split; [exact X|unfold doomed; rewrite Y; reflexivity]|split; [left; rewrite Z; reflexivity|]].
     intros _. reflexivity.
   - rewrite !app_assoc. apply Short. rewrite !no_consume_app, Pa, Pp, Pm. reflexivity.
